@@ -47,7 +47,8 @@ type h struct {
 	w       *bluge.Writer
 	r       *bluge.Reader
 	caseNo  int
-	hung    bool // a search of this case did not return: the rest of the case is skipped
+	defs    map[string]search.Aggregation // aggregation DEFINITIONS of this case, re-used by every request that names the same tree
+	hung    bool                          // a search of this case did not return: the rest of the case is skipped
 }
 
 // a search that does not come back within this time is reported as "hang" (an observation, not the death of
@@ -56,8 +57,8 @@ const searchTimeout = 40 * time.Second
 
 func (*h) Rule() string {
 	return "per case a generated in-memory corpus (0..~150 documents in 1..4 batches, some deleted) with single- and multi-valued numeric, date and keyword fields, duplicates inside a document and missing values; " +
-		"requests = query (match-all, none, term, must, should, must-not, numeric range) x aggregation tree (1..3 top-level: count/sum/min/max/avg/weighted avg, cardinality, quantiles, terms->metrics, numeric ranges->metrics, date ranges->metrics) x collector settings " +
-		"(AllMatches; TopN with n in {0,1,3,10,50}, from, sort by score/field(s), search-after/before keys taken from the corpus); every (query, tree) is run under several settings. " +
+		"requests = query (match-all, none, term, must, should, must-not, numeric range) x aggregation tree (1..3 top-level: count/sum/min/max/avg/weighted avg, cardinality, quantiles, terms / numeric ranges / date ranges -> nested metrics, cardinality and quantiles) x collector settings " +
+		"(AllMatches; TopN with n in {0,1,3,10,50}, from, sort by score/field(s), search-after/before keys taken from the corpus); every (query, tree) is run under several settings, 45% of the trees are used again under another query, and one aggregation DEFINITION object per tree and case serves all those requests; every sketch (top-level and per bucket) is printed next to the same Go sketch type fed directly with the values of the documents belonging to that bucket. " +
 		"A request is non-trivial when it matches at least one document; distinct = distinct (case, request line)"
 }
 
@@ -225,9 +226,23 @@ func genCase(r *hlib.Rand, c int, tier string, reqPer int, emit func(string)) {
 		}
 	}
 	g := &reqGen{r: r, live: live, pool: pool, dpool: dpool, vocab: vocab}
+	type tree struct {
+		a     string
+		reads map[string]bool
+	}
+	var earlier []tree
 	for i := 0; i < reqPer; i++ {
 		q := g.query()
-		a, reads := g.aggs()
+		var a string
+		var reads map[string]bool
+		if len(earlier) > 0 && r.Chance(45) {
+			// the same aggregation tree (the harness re-uses the very same definition objects) under another query
+			t := earlier[r.Intn(len(earlier))]
+			a, reads = t.a, t.reads
+		} else {
+			a, reads = g.aggs()
+			earlier = append(earlier, tree{a, reads})
+		}
 		settings := []string{"all"}
 		for j, n := 0, r.Range(3, 4); j < n; j++ {
 			settings = append(settings, g.topn(reads))
@@ -418,7 +433,14 @@ func (g *reqGen) aggs() (string, map[string]bool) {
 		n := r.Weighted(3, 4, 2)
 		out := []string{}
 		for i := 0; i < n; i++ {
-			out = append(out, g.metric(pick))
+			switch r.Weighted(5, 2, 3) {
+			case 0:
+				out = append(out, g.metric(pick))
+			case 1:
+				out = append(out, "card:"+pick('k'))
+			default:
+				out = append(out, "quant:"+pick('n'))
+			}
 		}
 		if len(out) == 0 {
 			return ""
@@ -552,6 +574,7 @@ func (s *h) reset() {
 		_ = s.w.Close()
 	}
 	s.docs = map[string]*doc{}
+	s.defs = map[string]search.Aggregation{}
 	s.pending = nil
 	s.r = nil
 	s.w = nil
@@ -788,38 +811,68 @@ func quantString(q func(float64) float64) string {
 	for i, p := range ranks {
 		out[i] = fbits(q(p))
 	}
-	return strings.Join(out, ",")
+	return strings.Join(out, "_")
 }
 
-func subString(b *search.Bucket, subs []*aggSpec) string {
-	out := make([]string, len(subs))
-	for i := range subs {
-		out[i] = fbits(b.Metric(fmt.Sprintf("s%d", i)))
+// canonical doc values of one document (distinct, ascending in term order), from the corpus table
+func canonNums(d *doc, f string) []float64 {
+	if d == nil {
+		return nil
 	}
-	return "{" + strings.Join(out, ",") + "}"
+	seen := map[int64]bool{}
+	var ks []int64
+	for _, v := range d.fields[f] {
+		k := numeric.Float64ToInt64(math.Float64frombits(p64(v)))
+		if !seen[k] {
+			seen[k] = true
+			ks = append(ks, k)
+		}
+	}
+	sort.Slice(ks, func(i, j int) bool { return ks[i] < ks[j] })
+	out := make([]float64, len(ks))
+	for i, k := range ks {
+		out[i] = numeric.Int64ToFloat64(k)
+	}
+	return out
 }
 
-// values of the matched documents (the corpus table, canonicalised the way doc values are: distinct, ascending)
+func canonDates(d *doc, f string) []int64 {
+	if d == nil {
+		return nil
+	}
+	seen := map[int64]bool{}
+	var ks []int64
+	for _, v := range d.fields[f] {
+		k, _ := strconv.ParseInt(v, 10, 64)
+		if !seen[k] {
+			seen[k] = true
+			ks = append(ks, k)
+		}
+	}
+	sort.Slice(ks, func(i, j int) bool { return ks[i] < ks[j] })
+	return ks
+}
+
+func canonTerms(d *doc, f string) []string {
+	if d == nil {
+		return nil
+	}
+	vs := append([]string(nil), d.fields[f]...)
+	sort.Strings(vs)
+	var out []string
+	for i, v := range vs {
+		if i == 0 || vs[i-1] != v {
+			out = append(out, v)
+		}
+	}
+	return out
+}
+
+// values of the given documents (a document listed twice counts twice), in order
 func (s *h) directNums(ids []string, f string) []float64 {
 	var out []float64
 	for _, id := range ids {
-		d := s.docs[id]
-		if d == nil {
-			continue
-		}
-		seen := map[int64]bool{}
-		var ks []int64
-		for _, v := range d.fields[f] {
-			k := numeric.Float64ToInt64(math.Float64frombits(p64(v)))
-			if !seen[k] {
-				seen[k] = true
-				ks = append(ks, k)
-			}
-		}
-		sort.Slice(ks, func(i, j int) bool { return ks[i] < ks[j] })
-		for _, k := range ks {
-			out = append(out, numeric.Int64ToFloat64(k))
-		}
+		out = append(out, canonNums(s.docs[id], f)...)
 	}
 	return out
 }
@@ -827,15 +880,91 @@ func (s *h) directNums(ids []string, f string) []float64 {
 func (s *h) directTerms(ids []string, f string) [][]byte {
 	var out [][]byte
 	for _, id := range ids {
-		d := s.docs[id]
-		if d == nil {
-			continue
+		for _, v := range canonTerms(s.docs[id], f) {
+			out = append(out, []byte(v))
 		}
-		vs := append([]string(nil), d.fields[f]...)
-		sort.Strings(vs)
-		for i, v := range vs {
-			if i == 0 || vs[i-1] != v {
-				out = append(out, []byte(v))
+	}
+	return out
+}
+
+// the same Go sketch types, fed directly: "<impl>/<direct>/<number of values fed directly>"
+func (s *h) cardEntry(impl float64, ids []string, f string) string {
+	sk := hyperloglog.New16()
+	vs := s.directTerms(ids, f)
+	for _, t := range vs {
+		sk.Insert(t)
+	}
+	return fmt.Sprintf("c:%s/%s/%d", fbits(impl), fbits(float64(sk.Estimate())), len(vs))
+}
+
+func (s *h) quantEntry(calc search.Calculator, ids []string, f string) string {
+	td, _ := tdigest.New(tdigest.Compression(100))
+	vs := s.directNums(ids, f)
+	for _, x := range vs {
+		_ = td.Add(x)
+	}
+	impl := "?"
+	if qc, ok := calc.(*aggregations.QuantilesCalculator); ok {
+		impl = quantString(func(p float64) float64 { x, _ := qc.Quantile(p); return x })
+	}
+	return fmt.Sprintf("q:%s/%s/%d", impl, quantString(td.Quantile), len(vs))
+}
+
+// the nested results of one bucket; members = the matched documents that belong to the bucket (a document once per
+// value inside a range), by the harness's own reading of the request
+func (s *h) subString(b *search.Bucket, subs []*aggSpec, members []string) string {
+	out := make([]string, len(subs))
+	for i, sub := range subs {
+		name := fmt.Sprintf("s%d", i)
+		switch sub.kind {
+		case "card":
+			out[i] = s.cardEntry(b.Metric(name), members, sub.f)
+		case "quant":
+			out[i] = s.quantEntry(b.Aggregation(name), members, sub.f)
+		default:
+			out[i] = fbits(b.Metric(name))
+		}
+	}
+	return "{" + strings.Join(out, ",") + "}"
+}
+
+func (s *h) termMembers(ids []string, f, term string) []string {
+	var out []string
+	for _, id := range ids {
+		for _, v := range canonTerms(s.docs[id], f) {
+			if v == term {
+				out = append(out, id)
+			}
+		}
+	}
+	return out
+}
+
+func (s *h) rangeMembers(ids []string, a *aggSpec, rg string) []string {
+	b := strings.Split(rg, "~")
+	var out []string
+	for _, id := range ids {
+		if a.kind == "ranges" {
+			lo, hi := math.Float64frombits(p64(b[0])), math.Float64frombits(p64(b[1]))
+			for _, v := range canonNums(s.docs[id], a.f) {
+				if v >= lo && v < hi {
+					out = append(out, id)
+				}
+			}
+		} else {
+			for _, v := range canonDates(s.docs[id], a.f) {
+				ok := true
+				if b[0] != "z" {
+					x, _ := strconv.ParseInt(b[0], 10, 64)
+					ok = ok && v >= x
+				}
+				if b[1] != "z" {
+					x, _ := strconv.ParseInt(b[1], 10, 64)
+					ok = ok && v < x
+				}
+				if ok {
+					out = append(out, id)
+				}
 			}
 		}
 	}
@@ -849,29 +978,24 @@ func (s *h) aggString(bk *search.Bucket, specs []*aggSpec, ids []string) string 
 		var v string
 		switch a.kind {
 		case "card":
-			sk := hyperloglog.New16()
-			for _, t := range s.directTerms(ids, a.f) {
-				sk.Insert(t)
-			}
-			v = "c:" + fbits(bk.Metric(name)) + "/" + fbits(float64(sk.Estimate()))
+			v = s.cardEntry(bk.Metric(name), ids, a.f)
 		case "quant":
-			td, _ := tdigest.New(tdigest.Compression(100))
-			for _, x := range s.directNums(ids, a.f) {
-				_ = td.Add(x)
-			}
-			qc := bk.Aggregation(name).(*aggregations.QuantilesCalculator)
-			v = "q:" + quantString(func(p float64) float64 { x, _ := qc.Quantile(p); return x }) + "/" + quantString(td.Quantile)
+			v = s.quantEntry(bk.Aggregation(name), ids, a.f)
 		case "terms":
 			tc := bk.Aggregation(name).(*aggregations.TermsCalculator)
 			bs := []string{}
 			for _, b := range tc.Buckets() {
-				bs = append(bs, fmt.Sprintf("%s:%d%s", b.Name(), b.Count(), subString(b, a.subs)))
+				bs = append(bs, fmt.Sprintf("%s:%d%s", b.Name(), b.Count(), s.subString(b, a.subs, s.termMembers(ids, a.f, b.Name()))))
 			}
 			v = fmt.Sprintf("t:other=%d,[%s]", tc.Other(), strings.Join(bs, "|"))
 		case "ranges", "dranges":
 			bs := []string{}
-			for _, b := range bk.Buckets(name) {
-				bs = append(bs, fmt.Sprintf("%s:%d%s", b.Name(), b.Count(), subString(b, a.subs)))
+			for j, b := range bk.Buckets(name) {
+				var members []string
+				if j < len(a.ranges) {
+					members = s.rangeMembers(ids, a, a.ranges[j])
+				}
+				bs = append(bs, fmt.Sprintf("%s:%d%s", b.Name(), b.Count(), s.subString(b, a.subs, members)))
 			}
 			v = "r:[" + strings.Join(bs, "|") + "]"
 		default:
@@ -988,8 +1112,18 @@ func (s *h) execReq(line string, st *reqStats) (string, string) {
 		}
 		req = t
 	}
+	aggStrs := strings.Split(a, ";")
 	for i, sp := range specs {
-		req.AddAggregation(fmt.Sprintf("a%d", i), sp.build())
+		// one DEFINITION object per aggregation tree and case: later requests naming the same tree (other queries,
+		// other paging) get the very same object — Calculator() must give each search, and each bucket, fresh state
+		def, ok := s.defs[aggStrs[i]]
+		if !ok {
+			def = sp.build()
+			s.defs[aggStrs[i]] = def
+		} else {
+			st.Count("def:reused")
+		}
+		req.AddAggregation(fmt.Sprintf("a%d", i), def)
 	}
 	it, err := rd.Search(ctx, req)
 	if err != nil {
@@ -1009,6 +1143,11 @@ func (s *h) execReq(line string, st *reqStats) (string, string) {
 	st.Count("c:" + cs[0] + ":" + mode)
 	for _, sp := range specs {
 		st.Count("agg:" + sp.kind)
+		for _, sub := range sp.subs {
+			if sub.kind == "card" || sub.kind == "quant" {
+				st.Count("nested:" + sub.kind)
+			}
+		}
 	}
 	switch {
 	case len(ids) == 0:
